@@ -35,7 +35,7 @@ EXTENDS Integers, Sequences, FiniteSets, TLC
 
 CONSTANTS Deviations,     \* named departures of the code from the design that are switched on
           Fns,            \* the functions the generator may call (a subset of DOMAIN FT)
-          Pools,          \* "small": a few tokens per argument (exhaustive runs); "full": all of them; "doc": documented uses only
+          Pools,          \* "tiny" / "small": a few tokens per argument (exhaustive runs); "full": all of them; "doc": documented uses only
           MaxCalls, MinCalls, MaxDepth, MaxMisplaced,
           MaxTop,         \* at most this many top-level calls (the rest of the budget goes into nesting)
           MinKids         \* a func() does not return before it made this many calls (while the budget lasts)
@@ -553,7 +553,11 @@ OddTok == {"", "odd", "long", "nil", "wrongInt", "wrongStruct", "wrong", "many",
            "posfew", "badscheme", "vnil", "ArrNil", "MapNilV", "MapMapKey", "MapT1S", "CollNil", "CollBad", "CollT1", "CollCollR1", "nNoSuch", "nosuch",
            "-1", "99999", "0", "bad", "/{", "x", "/{a}/{a}", "::bad", "http://{", "{v1}", "ftp://x", "(", "[z-a]", "sbad", "struct", "mixed", "dup", "func",
            "zz", "zz:X-Z", "nov", "/{zz}", "/{*w}", "two", "T2", "R2", "e2", "sc2", "s2", "m2", "h2", "b"}
+TinyTok == {"-", "a", "zz", "s1", "m1", "e1", "sc1", "nosuch", "T1", "R1", "api1", "plain", "fn", "200", "404", "tiny", "nov", "/x/{a}", "/{zz}",
+            "txt", "url", "i", "s", "v", "k", "1", "date", "det", "struct", "Renamed", "u", "srv1", "h1", "v1", "pkg", "file.txt", "/f", "/r", "301",
+            "application/json", "http://localhost:8080", "api:read", "3600", "strict", "^a+$", "email"}
 Pool(S) == IF Pools = "full" THEN S
+           ELSE IF Pools = "tiny" THEN (LET I == S \cap TinyTok IN IF I = {} THEN {CHOOSE x \in S : TRUE} ELSE I)
            ELSE IF Pools = "doc" THEN (IF S \ OddTok = {} THEN S ELSE S \ OddTok)
            ELSE LET I == S \cap SmallTok IN IF I = {} THEN {CHOOSE x \in S : TRUE} ELSE I
 
